@@ -18,7 +18,8 @@ RULE = ("Hypothesis draws (N,W) with NW<=60, a PSD covariance S (sample covarian
         "from (Theta, S, lambda) only, with an independent enumeration of the Toeplitz classes. Unconditional clause: rho=1, "
         "no callback, spectrum of S in [0.25,4], lambda in [0,1] in all three forms -> the hook must report that the stop rule "
         "fired within the 1000-iteration budget. Non-trivial = stop rule fired, NW>=4, and the solution has at least one class "
-        "whose mean is beyond the zero threshold and at least one below it (sparsity active); distinct by SHA-1 of the case.")
+        "whose mean is beyond the zero threshold and at least one below it (sparsity active); distinct by SHA-1 of the case."
+        ' Covariances also as int64/int32/float32 arrays and nested lists of integers.')
 ASSUMPTIONS = [
     "guarded hook admm_exit reports iterations and whether the stopping rule fired (not otherwise observable)",
     "certificate slack = solver's documented tolerances + 0.1% + an explicit bound on the error of the computed inverse",
